@@ -42,7 +42,15 @@ func (g *Gen) hostType(depth int, uniform bool) *Type {
 	case 1:
 		return g.U.Vec(r.Range(2, 4), g.hostScalar())
 	case 2:
-		return g.U.Mat(r.Range(2, 4), r.Range(2, 4), F32)
+		rows := r.Range(2, 4)
+		if uniform && rows == 2 {
+			if !g.on("uniform.matCx2") {
+				rows = 4
+			} else {
+				g.feat("uniform.matCx2")
+			}
+		}
+		return g.U.Mat(r.Range(2, 4), rows, F32)
 	case 3:
 		et := g.hostType(depth-1, uniform)
 		if uniform {
@@ -73,6 +81,11 @@ func (g *Gen) newStruct(depth int, uniform bool, top ...bool) *Type {
 			continue
 		}
 		ms[i] = Member{Name: g.name("m"), Type: mt}
+		if uniform && i > 0 && ms[i-1].Type.Kind == KStruct {
+			// uniform address space: the member after a struct member must start at least roundUp(16, sizeof(struct)) later
+			ms[i].Align = 16
+			continue
+		}
 		if r.Chance(1, 8) && g.on("attr.align") && (isTop || g.on("attr.align.nested")) {
 			ms[i].Align = []int{16, 32}[r.Intn(2)]
 			g.feat("attr.align")
